@@ -428,6 +428,30 @@ class _ArrWorld(World):
     return NotImplemented
 
   def binop(self, it, op, a, b, node):
+    if isinstance(a, MArr) and isinstance(b, int) and \
+            isinstance(op, ast.Mult) and \
+            all(isinstance(x, int) for x in a.flat):
+      return MArr(a.shape, [x * b for x in a.flat])
+    if isinstance(b, MArr) and isinstance(a, int) and \
+            isinstance(op, ast.Mult) and \
+            all(isinstance(x, int) for x in b.flat):
+      return MArr(b.shape, [x * a for x in b.flat])
+    return NotImplemented
+
+  def unary(self, it, op, v, node):
+    if isinstance(op, ast.USub) and isinstance(v, MArr) and \
+            all(isinstance(x, int) for x in v.flat):
+      return MArr(v.shape, [-x for x in v.flat])
+    return NotImplemented
+
+  def subscript(self, it, base, idx, node):
+    if base == S('X') and isinstance(idx, MArr):
+      return S('gather', idx)
+    if isinstance(base, MArr) and isinstance(idx, int) and base.ndim >= 1:
+      rows = base.rows()
+      if -len(rows) <= idx < len(rows):
+        r = rows[idx]
+        return r if r.ndim else r.flat[0]
     return NotImplemented
 
   def iterate(self, it, v, node):
@@ -473,11 +497,30 @@ class _ArrWorld(World):
             'axis', args[1] if len(args) > 1 else 0))
       if short in ('asarray', 'array') and args:
         return MArr.of(args[0])
+      if short in ('ones_like', 'zeros_like', 'full_like') and args and \
+              isinstance(args[0], MArr):
+        fill = {'ones_like': 1, 'zeros_like': 0}.get(
+            short, args[1] if len(args) > 1 else None)
+        if isinstance(fill, int):
+          return MArr(args[0].shape, [fill] * len(args[0].flat))
+      if short in ('ones', 'zeros', 'full') and args:
+        shp = args[0] if isinstance(args[0], tuple) else (args[0],)
+        fill = {'ones': 1, 'zeros': 0}.get(
+            short, args[1] if len(args) > 1 else None)
+        if all(isinstance(x, int) for x in shp) and isinstance(fill, int):
+          n = 1
+          for x in shp:
+            n *= x
+          return MArr(shp, [fill] * n)
+      if short == 'negative' and len(args) == 1:
+        return self.unary(it, ast.USub(), args[0], node)
       if short in ('ravel',) and args:
         return MArr.of(args[0]).ravel(kwargs.get('order', 'C'))
       if short == 'transpose' and len(args) == 1:
         return MArr.of(args[0]).T()
-    except (ValueError, TypeError, AssertionError) as e:
+    except miniarr.ShapeMismatch:
+      raise Raised(['ValueError'], node)
+    except (ValueError, TypeError, AssertionError, IndexError) as e:
       raise Undecided('array model: %s' % e)
     return NotImplemented
 
@@ -852,3 +895,65 @@ def rule_chunks_interp(repo, rep):
                   v[1])
   rep.floor('chunk layouts x requests interpreted', ncombo, 28)
   return dict((c, verdict.get(c, ('derived',))[0]) for c in clauses)
+
+
+def rule_wrap_pairs(repo, rep):
+  R = 'R-INTERP:wrap-pairs-labelling'
+  rep.rule(R, 'constraints.wrap_pairs(X, (a, b, c, d)), interpreted on '
+           'symbolic index atoms (2 positive, 3 negative pairs; 1 and 1; '
+           '3 and 1), returns X gathered at the rows (a_i, b_i) and '
+           '(c_j, d_j) together with labels aligned row by row: +1 for '
+           'every (a_i, b_i), -1 for every (c_j, d_j)')
+  f = repo.get_func('constraints.wrap_pairs')
+  if f is None:
+    rep.unknown(R, 'constraints.wrap_pairs', '', 'function vanished')
+    return
+  rep.analysed(f)
+  ps = f.params()
+  if len(ps) != 2:
+    rep.unknown(R, 'constraints.wrap_pairs', site(f), 'signature %s' % ps)
+    return
+  bad = unk = None
+  for npos, nneg in ((2, 3), (1, 1), (3, 1)):
+    a = MArr((npos,), ['a%d' % i for i in range(npos)])
+    b = MArr((npos,), ['b%d' % i for i in range(npos)])
+    c = MArr((nneg,), ['c%d' % i for i in range(nneg)])
+    d = MArr((nneg,), ['d%d' % i for i in range(nneg)])
+    want = sorted([(('a%d' % i, 'b%d' % i), 1) for i in range(npos)] +
+                  [(('c%d' % i, 'd%d' % i), -1) for i in range(nneg)])
+    it = Interp(repo, f, _ArrWorld())
+    try:
+      out = it.run({ps[0]: S('X'), ps[1]: (a, b, c, d)})
+    except Undecided as u:
+      unk = unk or '%s (%d positive, %d negative pairs)' % (u, npos, nneg)
+      continue
+    if out[0] == 'raise':
+      bad = bad or 'raises %s with %d positive and %d negative pairs' % (
+          out[1][0], npos, nneg)
+      continue
+    if not (isinstance(out[1], tuple) and len(out[1]) == 2):
+      unk = unk or 'returns %r' % (out[1],)
+      continue
+    pairs, y = out[1]
+    if tg(pairs) != 'gather' or not isinstance(y, MArr):
+      unk = unk or 'returns (%r, %r)' % (pairs, y)
+      continue
+    idx = pairs[1]
+    if idx.ndim != 2 or idx.shape[1] != 2 or y.ndim != 1 or \
+            y.shape[0] != idx.shape[0]:
+      bad = bad or 'pairs gathered with an index array of shape %s and ' \
+          'labels of shape %s (%d positive, %d negative pairs)' % (
+              idx.shape, y.shape, npos, nneg)
+      continue
+    got = sorted((tuple(r.flat), lab) for r, lab in zip(idx.rows(), y.flat))
+    if got != want:
+      wrong = [g for g in got if g not in want][:3]
+      bad = bad or 'with %d positive and %d negative pairs the rows and ' \
+          'labels are %s ...; expected (a_i, b_i) -> +1 and (c_j, d_j) -> ' \
+          '-1' % (npos, nneg, wrong)
+  if bad:
+    rep.refuted(R, 'constraints.wrap_pairs', site(f), bad)
+  elif unk:
+    rep.unknown(R, 'constraints.wrap_pairs', site(f), unk)
+  else:
+    rep.derived(R, 'constraints.wrap_pairs', site(f))
